@@ -5,7 +5,7 @@ open Gms.Proto Gms.SysVars
 
 /-!
 Driver for C44. One case = one whole history over a fresh registry state:
-  (hist stmt…)   stmt := (new sid) | (set sid (asg target rhs)…) | (get sid target…)
+  (hist stmt…)   stmt := (new sid) | (set sid (asg target rhs)…) | (names sid rhs) | (get sid target…) | (getp xNAME)
   target := (sys session|global|persist|persistonly 0|1 xNAME) | (user xNAME)
   rhs := (lit val) | (dflt) | (ref target)
   val := null | (b 0|1) | (i int) | (u nat) | (d m s) | (f m s) | (s xTEXT)
@@ -55,6 +55,8 @@ def parseAsg : Sexp → Option (Target × Rhs)
 def parseStmt : Sexp → Option Stmt
   | .list [.atom "new", sid] => sid.nat?.map .newSession
   | .list (.atom "set" :: sid :: asgs) => do some (.set (← sid.nat?) (← asgs.mapM parseAsg))
+  -- SET NAMES x: the planbuilder's expansion into three SESSION assignments
+  | .list [.atom "names", sid, rhs] => do some (.set (← sid.nat?) (expandNames (← parseRhs rhs)))
   | .list [.atom "getp", n] => (strOf n).map .getPersisted
   | .list (.atom "get" :: sid :: ts) => do some (.get (← sid.nat?) (← ts.mapM parseTarget))
   | _ => none
@@ -70,17 +72,18 @@ def runObs (q : Quirks) (h : List Stmt) : String :=
   ";".intercalate ((run q reg (init reg) h).2.map showObs)
 
 def quirkNames : List String :=
-  ["int_uint_reinterpreted", "uint_decimal_rounded", "global_only_stale_read", "multi_assign_partial_effect", "persist_before_checks"]
+  ["int_uint_reinterpreted", "uint_decimal_rounded", "global_only_stale_read", "multi_assign_partial_effect", "persist_before_checks",
+   "double_string_go_syntax", "database_charset_read_from_catalog"]
 
 def quirksOf (on : List Nat) : Quirks :=
   { wraps := on.contains 0, decRounds := on.contains 1, staleGlobalOnly := on.contains 2,
-    partialMulti := on.contains 3, persistFirst := on.contains 4 }
+    partialMulti := on.contains 3, persistFirst := on.contains 4, goFloat := on.contains 5, catalogReads := on.contains 6 }
 
 /-- Subsets of the quirks, smallest first; within a size in priority order. A history is
 attributed to the first member of the first subset that alone (added to the property semantics)
 changes its observations. -/
 def subsets : List (List Nat) :=
-  let idx := [0, 1, 2, 3, 4]
+  let idx := [0, 1, 2, 3, 4, 5, 6]
   let s1 := idx.map fun i => [i]
   let s2 := idx.flatMap fun i => (idx.filter (· > i)).map fun j => [i, j]
   let s3 := idx.flatMap fun i => (idx.filter (· > i)).flatMap fun j => (idx.filter (· > j)).map fun k => [i, j, k]
